@@ -6,7 +6,7 @@
    explicit hypotheses (sanity re-lex succeeds, the echo writer's last chunk is not empty, echo_stable). *)
 From PV Require Import Base.Prelude Model.P8File Spec.P8Format Spec.P8FileSpec
   Proofs.P8FileWrite Proofs.P8FileRoundtrip Proofs.P8FileRewrite
-  Generated.T_lexer Model.Lexer Model.EchoWriter Proofs.LexerChunk Proofs.P8FileLua.
+  Generated.T_lexer Model.Lexer Model.EchoWriter Proofs.LexerChunk Proofs.EchoStable Proofs.P8FileLua.
 
 Section C03.
 Variable lua : Type.
@@ -76,6 +76,21 @@ Theorem C03_roundtrip_lexer : forall (c : lex_cart) l0,
     (forall l1, model_lex (echo l') = Ok l1 -> lex_write (norm_cart (list tok) c l') = Ok file).
 Proof. exact p8_roundtrip_lexer. Qed.
 Print Assumptions C03_roundtrip_lexer.
+
+(* ... and with the sanity re-lex discharged as well: it succeeds whenever no newline token of the Lua object is
+   a lone carriage return (always so for sources of the reference dialect: EchoStable.dialect_no_lone_cr;
+   a CR not followed by LF is outside the reference grammar). No hypothesis about lexing is left for the
+   written cart; for the byte-identical re-write the same side condition is asked of the re-read object. *)
+Theorem C03_roundtrip_lexer_full : forall (c : lex_cart),
+  wf_cart (list tok) echo c -> from_lexer c -> no_lone_cr_newline (c_lua c) ->
+  code_in_format (concat (echo (c_lua c))) = true ->
+  exists file l',
+    lex_write c = Ok file /\
+    lex_read file = Ok (norm_cart (list tok) c l') /\
+    concat (echo l') = supply_nl (concat (echo (c_lua c))) /\
+    (no_lone_cr_newline l' -> lex_write (norm_cart (list tok) c l') = Ok file).
+Proof. exact p8_roundtrip_lexer_full. Qed.
+Print Assumptions C03_roundtrip_lexer_full.
 
 (* non-vacuity: with the identity lexer, a concrete cart (glyph bytes in a comment, no final newline,
    a label) meets every hypothesis *)
